@@ -897,9 +897,28 @@ impl<'a> LabelValue<'a> {
         else {
             self.target.buf.push_str(", ");
         }
+        // Label values need backslash, double quote and line feed escaped.
+        struct Escaped<'a>(&'a mut String);
+
+        impl fmt::Write for Escaped<'_> {
+            fn write_str(&mut self, s: &str) -> fmt::Result {
+                for ch in s.chars() {
+                    match ch {
+                        '\\' => self.0.push_str("\\\\"),
+                        '"' => self.0.push_str("\\\""),
+                        '\n' => self.0.push_str("\\n"),
+                        _ => self.0.push(ch)
+                    }
+                }
+                Ok(())
+            }
+        }
+
+        write!(&mut self.target.buf, "{name}=\"").expect("writing to string");
         write!(
-            &mut self.target.buf, "{name}=\"{value}\""
+            Escaped(&mut self.target.buf), "{value}"
         ).expect("writing to string");
+        self.target.buf.push('"');
         self
     }
 
